@@ -5,6 +5,7 @@
 -/
 import RapidProofs.Shrink
 import RapidProofs.PassRefine
+import RapidModel.Generated.CallOrders
 
 namespace Rapid.C05
 
@@ -68,5 +69,39 @@ theorem concrete_shrinker_result (p : Prog) (hP : PruneOK p) (hW : PruneWF p) (F
 
 /-- the premises are satisfiable: the empty recording is well-formed -/
 example : RecWF Rec.empty := by intro g hg; cases hg
+
+
+/-! ### source facts, re-read from /repo on every run: every loop and branch condition of the
+    passes is the one the model (`RapidModel.Passes`, `RapidModel.Rec`) was written from -/
+
+open Rapid.Generated in
+theorem pass_conditions_source :
+    conds_removeGroups = ["for i < len(s.rec.groups) && time.Now().Before(deadline)", "if !g.standalone || g.end < 0",
+      "if s.accept(without(s.rec.data, g), …)"] ∧
+    conds_minimizeBlocks = ["for i < len(s.rec.data) && time.Now().Before(deadline)", "if i >= len(s.rec.data)"] ∧
+    conds_lowerFloatHack = ["for i < len(s.rec.groups) && time.Now().Before(deadline)",
+      "if !g.standalone || g.end != g.begin + 7", "if !s.accept(buf, …)", "if !s.accept(buf, …)"] ∧
+    conds_removeGroupsAndLower = ["for i < len(s.rec.data) && time.Now().Before(deadline)", "if s.rec.data[i] == 0",
+      "for j < len(s.rec.groups)", "if !g.standalone || g.end < 0 || (i >= g.begin && i < g.end)",
+      "if s.accept(without(buf, g), …)"] ∧
+    conds_sortGroups = ["for i < len(s.rec.groups) && time.Now().Before(deadline)", "for j > 0 && j < len(s.rec.groups)",
+      "if !g.standalone || g.end < 0", "for j >= 0",
+      "if !h.standalone || h.end < 0 || h.end > g.begin || h.label != g.label", "if s.accept(buf, …)"] ∧
+    conds_removeGroupSpans = ["for i < len(s.rec.groups) && time.Now().Before(deadline)", "if !g.standalone || g.end < 0",
+      "for j < len(s.rec.groups)", "if !h.standalone || h.end < 0 || h.begin < groups[len(groups) - 1].end",
+      "if s.accept(buf, …)"] ∧
+    conds_shrink = ["if r != nil", "for s.shrinks > shrinks && time.Now().Before(deadline)", "if s.shrinks == shrinks"] := by
+  decide
+
+open Rapid.Generated in
+theorem accept_and_minimize_conditions_source :
+    conds_accept = ["if compareData(buf, s.rec.data) >= 0", "if ok", "if traceback(err1) != traceback(s.err)",
+      "if flags.debugvis", "if !sameError(err1, err2)"] ∧
+    conds_minimize = ["if u == 0", "for i < u && i < small", "if cond(i, labelMinBlockTrySmall)", "if u <= small"] ∧
+    conds_minimizer_accept = ["if u >= m.best || u < small || !m.cond(u, label)"] ∧
+    conds_removeGroup = ["for j < len(rec.groups) && rec.groups[j].end <= g.end", "if rec.groups[j].begin >= g.end",
+      "if rec.groups[j].end >= g.end"] ∧
+    conds_prune = ["for i < len(rec.groups)", "if rec.groups[i].discard"] := by
+  decide
 
 end Rapid.C05
